@@ -8,18 +8,18 @@ pub mod m0_perm0 {
    use crate::common::*;
    ascent! {
       pub struct Prog;
-      relation r2(i64, i64, i64);
       relation r5(i64, i64);
-      relation r0(i64);
-      relation r4(i64, i64, i64);
-      relation r3(i64, i64, i64);
+      relation r2(i64, i64, i64);
       relation r1(i64, i64);
-      r3(v0, v1, v2) <-- r5(v0, v1) if ((*v0) < 4), r1(v1, v2) if ((*v2) != (*v1));
-      r2(v1, v0, v1) <-- if let Some(v0) = Some(4), r1(v1, v2);
-      r4(v0, v1, (v0 + 1)) <-- if let Some(v0) = None::<i64>, r2(v0, (v0 + 0), v0), r3(v1, v0, v0), if (v0 < 6);
-      r3(v0, (v0 + 1), v0) <-- let v0 = 2, if (v0 < 6), r1(v1, v0) if ((*v1) < 1);
+      relation r3(i64, i64, i64);
+      relation r4(i64, i64, i64);
+      relation r0(i64);
+      r2(v1, v0, v1) <-- if let Some(v0) = Some(4), if (v0 <= 6), r1(v1, v2);
+      r2(v0, v8, v9) <-- if let Some(v9) = Some(2), r1(v0, v1), r5(v1, v9) let v8 = ((*v0) + 1);
       r5((v0 + 1), v0) <-- for v0 in [3, 4], if (v0 < 6);
-      r2(v0, v8, v9) <-- r1(v0, v1), if let Some(v9) = Some(2), r5(v1, v9) let v8 = ((*v0) + 1);
+      r3(v0, v1, v2) <-- r5(v0, v1) if ((*v0) < 4), r1(v1, v2) if ((*v2) != (*v1));
+      r3(v0, (v0 + 1), v0) <-- let v0 = 2, r1(v1, v0) if ((*v1) < 1), if (v0 <= 6), if (v0 < 6);
+      r4(v0, v1, (v0 + 1)) <-- if let Some(v0) = None::<i64>, r3(v1, v0, v0), r2(v0, (v0 + 0), v0), if (v0 < 6), if (v0 <= 6);
    }
    pub struct Inst { p: Prog, pool: Option<ascent::rayon::ThreadPool> }
    pub fn make(pool: Option<usize>) -> Box<dyn Driver> {
@@ -61,7 +61,7 @@ pub mod m1_ren1 {
       relation node(i64);
       relation foo(i64, i64, i64);
       foo(0, 3, 3) <-- edge(1, 1);
-      foo(a, a, (a + 1)) <-- let a = 2, foo(a, (a + 1), (a + 1)), path(a, a), if (a < 6);
+      foo(a, a, (a + 1)) <-- let a = 2, foo(a, (a + 1), (a + 1)), path(a, a), if (a <= 6), if (a < 6);
       foo(a, b, c) <-- edge(a, b) if ((*a) < 3), path(b, c) if ((*c) != (*b));
       node(a) <-- edge(a, b) if ((*a) < 3), path(b, c) if ((*c) != (*b));
       foo(b, ((*a) + 1), b) <-- node(a) if ((*a) < 2), path(b, a), if ((*a) < 6);
@@ -102,21 +102,21 @@ pub mod m3_perm1 {
    use crate::common::*;
    ascent! {
       pub struct Prog;
-      relation r4(i64, i64);
-      relation r2(i64);
-      relation r1(i64);
-      relation r3(i64, i64);
       relation r5(i64, i64, i64);
       relation r0(i64, i64);
-      r1(v1) <-- let v0 = 0, r0(v1, v0), if ((*v1) != 3);
+      relation r4(i64, i64);
+      relation r1(i64);
+      relation r2(i64);
+      relation r3(i64, i64);
+      r3(v0, v8) <-- r0(v0, v1), if let Some(v9) = Some(2), r3(v1, v9) let v8 = ((*v0) + 1);
       r3(v0, 1) <-- r2(v0) if ((*v0) != 1);
-      r4(v0, v0) <-- r3(v0, 3), if ((*v0) <= 1), r2(v0);
       r0(3, 0);
+      r5((v2 + 1), v2, 1) <-- r4(v0, v1) if ((*v0) < 1) let v2 = ((*v1) + 0), r3(v2, v0), if (v2 < 6), if (v2 <= 6), let v3 = (*v1);
       r2(v1) <-- r1(v1), if let Some(v0) = Some(4), r0(v0, v2);
-      r5((v2 + 1), v2, 1) <-- r4(v0, v1) if ((*v0) < 1) let v2 = ((*v1) + 0), r3(v2, v0), if (v2 < 6), let v3 = (*v1);
+      r4(v0, v0) <-- r3(v0, 3), if ((*v0) <= 1), r2(v0);
       r4(v0, 1) <-- r0(v0, 3) if ((*v0) != 6), let v1 = (*v0);
       r1(((*v0) + 1)) <-- r0(1, v0), if ((*v0) < 6);
-      r3(v0, v8) <-- r0(v0, v1), if let Some(v9) = Some(2), r3(v1, v9) let v8 = ((*v0) + 1);
+      r1(v1) <-- let v0 = 0, r0(v1, v0), if ((*v1) != 3);
    }
    pub struct Inst { p: Prog, pool: Option<ascent::rayon::ThreadPool> }
    pub fn make(pool: Option<usize>) -> Box<dyn Driver> {
@@ -368,7 +368,7 @@ pub mod m11 {
       relation r1(i64, i64);
       relation r2(i64, i64);
       r2(v0, v1) <-- r2(v0, v1), r0(v0, v0), r2(v1, v2);
-      r2(1, v0) <-- if let Some(v0) = Some(3), r1(v0, v1), r0(v0, v0), for v2 in 0..4;
+      r2(1, v0) <-- if let Some(v0) = Some(3), r1(v0, v1), r0(v0, v0), for v2 in 0..4, if (v0 <= 6);
    }
    pub struct Inst { p: Prog, pool: Option<ascent::rayon::ThreadPool> }
    pub fn make(pool: Option<usize>) -> Box<dyn Driver> {
